@@ -498,11 +498,12 @@ func (p *Program) closureSite(fn *ssa.Function) *ssa.MakeClosure {
 	return nil
 }
 
-// literalCallSite: the single call/defer/go instruction whose callee is the function literal fn itself
-// (`defer func(ctx context.Context) { … }(ctx)`), nil if the literal is used in any other way.
-func (p *Program) literalCallSite(fn *ssa.Function) ssa.CallInstruction {
+// literalCallSites: the call/defer/go instructions whose callee is the function literal fn itself
+// (`defer func(ctx context.Context) { … }(ctx)`, or a local `add := func(…) {…}` that is only ever called),
+// nil if the literal is used in any other way (stored, passed on, returned).
+func (p *Program) literalCallSites(fn *ssa.Function) []ssa.CallInstruction {
 	mc := p.closureSite(fn)
-	var site ssa.CallInstruction
+	var sites []ssa.CallInstruction
 	if mc != nil {
 		refs := mc.Referrers()
 		if refs == nil {
@@ -513,36 +514,48 @@ func (p *Program) literalCallSite(fn *ssa.Function) ssa.CallInstruction {
 				continue
 			}
 			c, ok := ref.(ssa.CallInstruction)
-			if !ok || c.Common().Value != ssa.Value(mc) || site != nil {
+			if !ok || c.Common().Value != ssa.Value(mc) {
 				return nil
 			}
-			site = c
+			for _, a := range c.Common().Args {
+				if a == ssa.Value(mc) {
+					return nil
+				}
+			}
+			sites = append(sites, c)
 		}
-		return site
+		return sites
 	}
 	// a literal without free variables is a plain function value
 	par := fn.Parent()
 	if par == nil {
 		return nil
 	}
-	n := 0
+	other := false
 	eachInstr(par, func(in ssa.Instruction) {
-		if c, ok := in.(ssa.CallInstruction); ok && c.Common().Value == ssa.Value(fn) {
-			site = c
-			n++
+		c, isCall := in.(ssa.CallInstruction)
+		if isCall && c.Common().Value == ssa.Value(fn) {
+			sites = append(sites, c)
 		}
 		for _, op := range in.Operands(nil) {
 			if op != nil && *op == ssa.Value(fn) {
-				if c, ok := in.(ssa.CallInstruction); !ok || c.Common().Value != ssa.Value(fn) {
-					n += 2
+				if !isCall || c.Common().Value != ssa.Value(fn) {
+					other = true
+				}
+			}
+		}
+		if isCall {
+			for _, a := range c.Common().Args {
+				if a == ssa.Value(fn) {
+					other = true
 				}
 			}
 		}
 	})
-	if n != 1 {
+	if other {
 		return nil
 	}
-	return site
+	return sites
 }
 
 // freeVarBinding returns the value bound to fv at the MakeClosure site of its function.
@@ -758,6 +771,14 @@ func (p *Program) originsCtx(v ssa.Value, start *originCtx, o originOpts) []ctxV
 				walk(ta.X, ctx)
 				return
 			}
+			if c, ok := x.Tuple.(*ssa.Call); ok && ctx.depth() < 4 {
+				if callee := c.Call.StaticCallee(); callee != nil && callee.Parent() != nil && len(p.literalCallSites(callee)) > 0 {
+					for _, rv := range returnsOf(callee, x.Index) {
+						walk(rv, ctx)
+					}
+					return
+				}
+			}
 			if c, ok := x.Tuple.(*ssa.Call); ok && !o.local && ctx.depth() < 4 {
 				if callee := c.Call.StaticCallee(); callee != nil && !c.Call.IsInvoke() && p.isTransparent(callee) {
 					for _, rv := range returnsOf(callee, x.Index) {
@@ -777,20 +798,27 @@ func (p *Program) originsCtx(v ssa.Value, start *originCtx, o originOpts) []ctxV
 			fn := x.Parent()
 			// a function literal that is called, deferred or spawned right where it is written: its parameters are the arguments
 			if fn.Parent() != nil {
-				if site := p.literalCallSite(fn); site != nil {
-					if a := argAt(site, paramIndex(x)); a != nil {
-						walk(a, ctx)
+				if sites := p.literalCallSites(fn); len(sites) > 0 {
+					all := true
+					for _, site := range sites {
+						all = all && argAt(site, paramIndex(x)) != nil
+					}
+					if all {
+						for _, site := range sites {
+							walk(argAt(site, paramIndex(x)), ctx)
+						}
 						return
 					}
 				}
 			}
-			if o.local || !p.isTransparent(fn) {
-				root(v, ctx)
+			i := paramIndex(x)
+			// entered through this very call (whatever kind of function it is): the argument of that call
+			if !o.local && ctx != nil && !ctx.upward && ctx.site.Common().StaticCallee() == fn && i >= 0 {
+				walk(argAt(ctx.site, i), ctx.up)
 				return
 			}
-			i := paramIndex(x)
-			if ctx != nil && !ctx.upward && ctx.site.Common().StaticCallee() == fn {
-				walk(argAt(ctx.site, i), ctx.up)
+			if o.local || !p.isTransparent(fn) {
+				root(v, ctx)
 				return
 			}
 			if ctx.depth() >= 4 {
@@ -867,6 +895,15 @@ func (p *Program) originsCtx(v ssa.Value, start *originCtx, o originOpts) []ctxV
 				if len(els) > 0 {
 					for _, el := range els {
 						walk(el, ctx)
+					}
+					return
+				}
+			}
+			// a local function literal that is only ever called: its results are the returned expressions
+			if callee := x.Call.StaticCallee(); callee != nil && callee.Parent() != nil && callee.Signature.Results().Len() == 1 && len(p.literalCallSites(callee)) > 0 && ctx.depth() < 4 {
+				if _, isGo := ssa.Instruction(x).(*ssa.Go); !isGo {
+					for _, rv := range returnsOf(callee, 0) {
+						walk(rv, ctx)
 					}
 					return
 				}
